@@ -506,6 +506,7 @@ func (g *Gen) appendBuiltin(v ssa.Value, cc *ssa.CallCommon, st *State, r string
 		inplace := "(store " + hb + " (s_arr " + s.T + ") (splice (select " + hb + " (s_arr " + s.T + ")) (+ (s_off " + s.T + ") (s_len " + s.T + ")) " + tn + "))"
 		// reallocation
 		arr := "(mkloc " + st.A + " pnil)"
+		g.ghostZero(st, st.A)
 		ncap := g.freshConst("ncap", "Int")
 		g.assume("(>= " + ncap + " " + newLen + ")")
 		pad := g.freshConst("pad", "(Seq Int)")
@@ -532,6 +533,7 @@ func (g *Gen) appendBuiltin(v ssa.Value, cc *ssa.CallCommon, st *State, r string
 	fits := g.fresh("fits")
 	g.define(fits, "Bool", "(<= "+newLen+" (s_cap "+s.T+"))")
 	arr := "(mkloc " + st.A + " pnil)"
+	g.ghostZero(st, st.A)
 	ncap := g.freshConst("ncap", "Int")
 	g.assume("(and (>= " + ncap + " " + newLen + ") (<= " + ncap + " 9223372036854775807))")
 	// the result is a declared constant (not a macro) so that it can occur in quantifier patterns
